@@ -133,6 +133,10 @@ class DateTime(datetime.datetime, Date):
         if tz is not None:
             tz = pendulum._safe_timezone(tz, dt=dt)
 
+            if dt.tzinfo is not None:
+                # Keep the instant of an aware datetime, whatever its fold says
+                dt = tz.convert(dt)
+
         return cls.create(
             dt.year,
             dt.month,
